@@ -37,6 +37,7 @@ class CountingSource(object):
         self.header_pulls = 0
         self.data_pulls = 0
         self.exhausted = 0
+        self.fail_next_at = None      # one-shot: the next iteration raises InjectedFault instead of yielding this row index
 
     def reset(self):
         self.iter_calls = self.header_pulls = self.data_pulls = self.exhausted = 0
@@ -46,9 +47,12 @@ class CountingSource(object):
         return self._gen()
 
     def _gen(self):
+        fail_at, self.fail_next_at = self.fail_next_at, None
         if self.rows is not None:
             it = iter(self.rows)
             for i, r in enumerate(it):
+                if fail_at is not None and i == fail_at:
+                    raise InjectedFault('source failed at row %d' % i)
                 if i == 0:
                     self.header_pulls += 1
                 else:
